@@ -27,6 +27,16 @@ Sub-checks
              boundary 0, 1 (thorough: 0..depth-1; cache for the key empty / populated) x shape {a one-shot (at its 1st / 2nd call), a
              raising or a nodeStateChange one-shot member in every position among recording neighbours; two one-shots;
              one of several / all in one call unregistered at the next boundary}: a member never affects its neighbours
+  interact   callbacks whose body calls unregister_callback / register_callback for another callback (same list, own entry,
+             other key) while the round of a message is under way, combined with one-shots and with one function registered
+             twice (10 scenarios, each on all six (callback name, key level) lists) x all histories of length <= 3 over 6
+             messages; reference = plain lists with in-place semantics: a round runs over a snapshot, unregister removes one
+             occurrence, a one-shot leaves when it says so, register calls back with the cached state and appends
+  proxy      a real ProxyModule (frappy.proxy.proxy_class of the focus module class) whose SecopClient is fed by the scripted
+             stream x all histories of length <= 3 over 12 messages with non-monotonic timestamps (older than the previous,
+             equal, missing = stamped locally, future; values / error states alternating): after every message the proxy
+             parameter's value / readerror equal the last message's, its timestamp is that of the message that brought the
+             present state (an unchanged value may keep the timestamp it first came with: omit_unchanged_within)
   reconnect  <= 1 (thorough 2) messages, then the connection is lost (the scripted readline raises ConnectionClosed, the real
              loop ends through its finally) and the client is connected again to a node whose description is {the same;
              only node properties changed; a module added; a module removed; a parameter added; a parameter removed; a
@@ -600,6 +610,8 @@ class CbSpec:
         self.group = None           # (group id, style): registered together with the other members in ONE register_callback call
         self.ungroup = None         # id: unregistered together with the other members carrying the same id in one call
         self.earlier = ''           # the members registered before this one in the same call (for signatures)
+        self.act = None             # (call number, 'unregister' | 'register', other CbSpec): done inside that call of this one
+        self.client = None
         self.__name__ = cbname      # frappy names a failing callback by its __name__ when logging
         self.calls = []     # (phase 'reg'|'msg', boundary/message index, (module, param, value, timestamp, readerror))
         self.io = None
@@ -635,6 +647,19 @@ class CbSpec:
             rec = tuple(args)      # updateEvent: (module, param, value, timestamp, readerror); nodeStateChange: (online, state)
         io = self.io
         self.calls.append(('reg' if io.in_op else 'msg', io.pos if io.in_op else io.pos - 1, rec))
+        if self.act is not None and len(self.calls) == self.act[0]:
+            # the callback's body (un)registers another callback while the round of this message is under way; immediate calls
+            # of a registration are logged as registration calls of the next boundary
+            _n, op, other = self.act
+            was = io.in_op
+            io.in_op = True
+            try:
+                if op == 'unregister':
+                    self.client.unregister_callback(other.key, **{other.cbname: other})
+                else:
+                    self.client.register_callback(other.key, **{other.cbname: other})
+            finally:
+                io.in_op = was
         if self.behaviour == 'raise' or (self.behaviour == 'raise1' and len(self.calls) == 1):
             raise ValueError('callback failed')
         if (self.behaviour == 'oneshot1' and len(self.calls) == 1) or (self.behaviour == 'oneshot2' and len(self.calls) == 2):
@@ -963,6 +988,7 @@ def canon(ref):
 # shards
 
 _FOCUS = {}
+_PROXY_URI = [0]
 _VDESC = {}
 
 
@@ -970,6 +996,315 @@ def variant_desc(name):
     if name not in _VDESC:
         _VDESC[name] = variant_description(name)
     return _VDESC[name]
+
+
+# --- callbacks acting on the callback lists during a round
+
+INTERACT_SCENARIOS = ('actor-unregisters-neighbour-then-oneshot', 'actor-unregisters-the-oneshot-before-its-turn',
+                      'neighbour-before-actor-then-oneshot2', 'duplicate-unregistered-once', 'actor-registers-newcomer',
+                      'actor-unregisters-itself-then-oneshot', 'actor-unregisters-on-other-keys', 'duplicate-oneshot',
+                      'actor-unregisters-later-neighbour-at-second-call', 'actor-reregisters-neighbour')
+
+
+def interact_slot(scenario, level, cbname):
+    """the callbacks of one (callback name, key) list for a scenario -> (entries, specs); entries = (op, boundary, spec) in
+    execution order; every list of the three key levels x two callback names gets its own copy"""
+    def cb(behaviour='record'):
+        return CbSpec(level, cbname, behaviour=behaviour)
+    A, X, O, R = cb(), cb(), cb('oneshot1'), cb()
+    if scenario == 'actor-unregisters-neighbour-then-oneshot':
+        A.act = (1, 'unregister', X)
+        order = [A, X, O, R]
+    elif scenario == 'actor-unregisters-the-oneshot-before-its-turn':
+        A.act = (1, 'unregister', O)
+        order = [A, O, R]
+    elif scenario == 'neighbour-before-actor-then-oneshot2':
+        O = cb('oneshot2')
+        A.act = (1, 'unregister', X)
+        order = [X, A, O, R]
+    elif scenario == 'duplicate-unregistered-once':
+        order = [X, X, R]
+    elif scenario == 'actor-registers-newcomer':
+        A.act = (1, 'register', X)
+        order = [A, O, R]
+    elif scenario == 'actor-unregisters-itself-then-oneshot':
+        A.act = (1, 'unregister', A)
+        order = [A, O, R]
+    elif scenario == 'duplicate-oneshot':
+        order = [O, O, R]
+    elif scenario == 'actor-unregisters-later-neighbour-at-second-call':
+        A.act = (2, 'unregister', X)
+        order = [A, O, X, R]
+    elif scenario == 'actor-reregisters-neighbour':
+        A.act = (1, 'unregister', X)
+        R.act = (1, 'register', X)
+        order = [X, A, O, R]
+    else:
+        order = [A, O, R]           # actor-unregisters-on-other-keys: wired by interact_setup
+    entries = [('register', 0, c) for c in order]
+    if scenario == 'duplicate-unregistered-once':
+        entries.append(('unregister', 1, X))
+    return entries, {'A': A, 'X': X, 'O': O, 'R': R}
+
+
+def interact_setup(scenario):
+    entries = []
+    slots = {}
+    for level in GROUP_LEVELS:
+        for cbname in CBNAMES:
+            e, named = interact_slot(scenario, level, cbname)
+            entries += e
+            slots[level[0], cbname] = named
+    if scenario == 'actor-unregisters-on-other-keys':
+        # the node-level updateItem actor removes the recorder of the module-level updateItem list (dispatched later for the same
+        # message), the module-level updateItem actor removes the one-shot of the parameter-level updateEvent list
+        slots['node', UI]['A'].act = (1, 'unregister', slots['module', UI]['R'])
+        slots['module', UI]['A'].act = (1, 'unregister', slots['param', UE]['O'])
+        slots['param', UE]['A'].act = (2, 'register', slots['module', UI]['R'])
+    return entries
+
+
+def interact_model(entries, effects, nmsg):
+    """reference: plain lists with in-place semantics.  A round runs over a snapshot of the list taken when it starts;
+    unregister removes one occurrence in place (nothing if absent); a one-shot is removed when it says so; register calls back
+    immediately with the cached state of the scope and appends.  -> {id(spec): expected call log}"""
+    lists = {}
+    logs = {}
+    cache = {}
+
+    def log(spec, entry):
+        logs.setdefault(id(spec), []).append(entry)
+        n = len(logs[id(spec)])
+        return n
+
+    def stop_at(spec):
+        return {'oneshot1': 1, 'oneshot2': 2}.get(spec.behaviour)
+
+    def act(spec, n, j):
+        if spec.act is not None and n == spec.act[0]:
+            _n, op, other = spec.act
+            (unregister if op == 'unregister' else register)(other, j + 1)
+
+    def register(spec, boundary):
+        alive = True
+        for k, v in list(cache.items()):
+            if level_matches(spec.key, *k):
+                n = log(spec, ('reg', boundary, k + v))
+                act(spec, n, boundary - 1)
+                if n == stop_at(spec):
+                    alive = False
+        if alive:
+            lists.setdefault((spec.cbname, spec.key), []).append(spec)
+
+    def unregister(spec, _boundary):
+        lst = lists.get((spec.cbname, spec.key), [])
+        if spec in lst:
+            lst.remove(spec)
+
+    for j in range(nmsg + 1):
+        for op, boundary, spec in entries:
+            if boundary == j:
+                (register if op == 'register' else unregister)(spec, j)
+        if j == nmsg:
+            break
+        eff = effects[j]
+        if eff is None:
+            continue
+        cache[eff[0], eff[1]] = eff[2:]
+        for cbname in CBNAMES:
+            for key in (None, eff[0], (eff[0], eff[1])):
+                lst = lists.get((cbname, key), [])
+                for spec in list(lst):
+                    n = log(spec, ('msg', j, eff))
+                    act(spec, n, j)
+                    if n == stop_at(spec) and spec in lst:
+                        lst.remove(spec)
+    return logs
+
+
+def interact_alphabet():
+    return [M('update', 'm:value', 1.5, PAST), M('error_update', 'm:value', err=('HardwareError', 'hw fail'), t=None),
+            M('changed', 'm:target', 5.5, PAST), M('update', 'n:value', 9.5, PAST), RAW(b'update m:value [1,', 'json-truncated'),
+            M('update', 'm', 6.5, FUTURE)]
+
+
+def execute_interact(scenario, msgs, clock, part, case):
+    clock.now = NOW0
+    client = make_client(focus())
+    entries = interact_setup(scenario)
+    lines = [render(m) for m in msgs]
+    ops = {}
+    io = ScriptIO(lines, ops, clock)
+    specs = []
+    for op, boundary, c in entries:
+        if not any(c is x for x in specs):
+            specs.append(c)
+        c.calls, c.io, c.client = [], io, client
+        if c.act is not None and not any(c.act[2] is x for x in specs):
+            specs.append(c.act[2])
+            c.act[2].calls, c.act[2].io, c.act[2].client = [], io, client
+        if op == 'register':
+            ops.setdefault(boundary, []).append(lambda c=c: client.register_callback(c.key, **{c.cbname: c}))
+        else:
+            ops.setdefault(boundary, []).append(lambda c=c: client.unregister_callback(c.key, **{c.cbname: c}))
+    run_receive_loop(client, io)
+    part.evaluations += 1
+    part.traces += 1
+    part.transitions += len(lines) + sum(len(c.calls) for c in specs)
+    ref = Ref(FOCUS)
+    effects = []
+    for j, m in enumerate(msgs):
+        eff = ref.effect(m, NOW0 + j + 1.0)
+        effects.append(eff)
+        ref.apply(eff)
+    logs = interact_model(entries, effects, len(msgs))
+    hist = '>'.join(m['tag'] for m in msgs)
+    # judged in dispatch order; the first callback that deviates names the violation (what follows is its consequence)
+    order = {(n, l[0]): (ni, li) for ni, n in enumerate(CBNAMES) for li, l in enumerate(GROUP_LEVELS)}
+    for c in sorted(specs, key=lambda c: order[c.cbname, c.levelname]):
+        exp = logs.get(id(c), [])
+        got = c.calls
+        bad = None
+        for e, g in zip(exp, got):
+            if e[0] != g[0] or e[1] != g[1] or not receq(e[2], g[2]):
+                bad = ('unexpected-call' if (g[0], g[1]) < (e[0], e[1]) or e[0] != g[0] else 'call-missing'
+                       if g[1] > e[1] else 'wrong-arguments', f'expected {e!r}, got {g!r}')
+                break
+        if bad is None and len(exp) != len(got):
+            bad = ('call-missing', f'no call {exp[len(got)]!r}') if len(got) < len(exp) else \
+                ('called-after-it-was-unregistered', f'extra call {got[len(exp)]!r}')
+        if bad is not None:
+            role = 'actor' if c.act is not None else c.behaviour
+            part.violation(f'C12:interact:{scenario}:{c.levelname}:{role}:{bad[0]}', case,
+                           f'scenario {scenario}, history {hist}; callback {c!r} act={c.act and c.act[:2]}: {bad[1]}; calls {got!r}; '
+                           f'reference log {exp!r}')
+            break
+    part.outcomes[f'interact:{scenario}:{sum(1 for e in effects if e)}-effective'] += 1
+    return ref
+
+
+def shard_interact(shard):
+    """shard = (scenario index, first symbol): all histories of length <= 3 starting with it"""
+    si, first = shard
+    scenario = INTERACT_SCENARIOS[si]
+    A = interact_alphabet()
+    part = core.Part()
+    seen = set()
+    with virtual_clock() as clock:
+        for d in range(3):
+            for rest in itertools.product(range(len(A)), repeat=d):
+                h = (first,) + rest
+                case = {'sub': 'interact', 'scenario': scenario, 'history': list(h)}
+                ref = execute_interact(scenario, [A[k] for k in h], clock, part, case)
+                part.nontrivial += 1 if ref.cache else 0
+                seen.add(canon(ref))
+        part.sample({'scenario': scenario, 'history': [A[k]['tag'] for k in h]})
+    part.states = len(seen)
+    return part
+
+
+# --- a real ProxyModule behind the client
+
+def proxy_alphabet():
+    """timestamps that are not monotonic: older than the previous, equal, missing (stamped locally), future; values and error
+    states alternate"""
+    older = PAST - 5.0
+    return [
+        M('update', 'm:value', 1.5, PAST), M('update', 'm:value', 2.5, older, tag='update:known-value:t-older'),
+        M('update', 'm:value', 3.5, None), M('update', 'm:value', 2.5, PAST), M('update', 'm:value', 1.5, FUTURE),
+        M('error_update', 'm:value', err=('HardwareError', 'hw fail'), t=None),
+        M('error_update', 'm:value', err=('CommunicationFailed', 'no answer'), t=older, tag='error_update:known-value:t-older'),
+        M('changed', 'm:target', 5.5, PAST), M('changed', 'm', 7.5, older, tag='changed:module-only:t-older'),
+        M('update', 'm:_s', 'abc', None), M('update', 'm:_s', 'de', older, tag='update:custom-param:t-older'),
+        RAW(b'update m:value [1,', 'json-truncated'),
+    ]
+
+
+def proxy_cls():
+    if 'proxycls' not in _FOCUS:
+        import frappy.proxy
+        _FOCUS['proxycls'] = frappy.proxy.proxy_class(node_classes()['M12'])
+    return _FOCUS['proxycls']
+
+
+def execute_proxy(msgs, clock, part, case):
+    """the history through SecopClient into a real proxy module (proxy_class of the focus module class): after every message
+    the proxy parameter equals the last message for it"""
+    clock.now = NOW0
+    # a uri of its own for every node: HasIO.ioDict remembers per class which uri already has its io module
+    _PROXY_URI[0] += 1
+    front = nodes.Node({'pm': {'cls': proxy_cls(), 'uri': f'tcp://scripted:{_PROXY_URI[0]}', 'module': 'm'}}, name='c12p')
+    try:
+        pm = front.secnode.modules['pm']
+        client = pm.io.secnode
+        client._init_descriptive_data(focus())
+        snaps = []
+
+        def snap():
+            snaps.append({n: (p.value, p.timestamp, p.readerror) for n, p in pm.parameters.items()})
+        lines = [render(m) for m in msgs]
+        io = ScriptIO(lines, {k: [snap] for k in range(len(lines) + 1)}, clock)
+        run_receive_loop(client, io)
+    finally:
+        front.close()
+    part.evaluations += 1
+    part.traces += 1
+    part.transitions += 2 * len(lines)
+    ref = Ref(FOCUS)
+    runs = {}       # key -> (state, acceptable timestamps): an unchanged state may keep the timestamp it was first seen with
+    hist = '>'.join(m['tag'] for m in msgs)
+    for j, m in enumerate(msgs):
+        eff = ref.effect(m, NOW0 + j + 1.0)
+        ref.apply(eff)
+        if eff is not None:
+            key = eff[0], eff[1]
+            state = (repr(eff[2]), eff[4])
+            if key in runs and runs[key][0] == state:
+                runs[key][1].append(eff[3])
+            else:
+                runs[key] = (state, [eff[3]])
+        got = snaps[j + 1]
+        for (mod, par), (v, ts, err) in ref.cache.items():
+            if mod != 'm' or par not in got:
+                continue
+            pv, pts, perr = got[par]
+            lastmsg = next(x for x in reversed(msgs[:j + 1]) if (lambda e: e is not None and (e[0], e[1]) == (mod, par))(
+                Ref(FOCUS).effect(x, 0.0)))
+            what = None
+            if not erreq(err, perr):
+                what = f'readerror {perr!r}, expected {err!r}'
+                cls = 'readerror'
+            elif err is None and not veq(v, pv):
+                what = f'value {pv!r}, expected {v!r}'
+                cls = 'value'
+            elif pts not in runs[mod, par][1]:
+                what = f'timestamp {pts!r}, expected {ts!r}'
+                cls = 'timestamp'
+            if what:
+                part.violation(f'C12:proxy:parameter-differs-in-{cls}:last={sigclass(lastmsg, "timestamp")}', case,
+                               f'history {hist}: after message {j} the proxy parameter pm:{par} has {what} (client cache: '
+                               f'{(v, ts, err)!r})')
+                return ref
+    part.outcomes['proxy:' + ','.join(sorted(f'{k[1]}={"err" if e[2] else "val"}' for k, e in ref.cache.items()))] += 1
+    return ref
+
+
+def shard_proxy(shard):
+    first, second = shard
+    A = proxy_alphabet()
+    part = core.Part()
+    seen = set()
+    with virtual_clock() as clock:
+        hists = [(first,)] if second == 0 else []
+        hists += [(first, second)] + [(first, second, k) for k in range(len(A))]
+        for h in hists:
+            case = {'sub': 'proxy', 'history': list(h)}
+            ref = execute_proxy([A[k] for k in h], clock, part, case)
+            part.nontrivial += 1 if ref.cache else 0
+            seen.add(canon(ref))
+        part.sample({'proxy history': [A[k]['tag'] for k in h], 'cache': {f'{k[0]}:{k[1]}': repr(v) for k, v in ref.cache.items()}})
+    part.states = len(seen)
+    return part
 
 
 # --- reconnect histories
@@ -1188,6 +1523,12 @@ def _run_sequential(ctx):
     depth = history_depth(tier)
     if not only or 'histories' in only:
         ctx.pmap(shard_histories, [(i, j) for i in range(nA) for j in range(nA)], name='histories')
+    if not only or 'interact' in only:
+        ctx.pmap(shard_interact, [(si, a) for si in range(len(INTERACT_SCENARIOS)) for a in range(len(interact_alphabet()))],
+                 name='interact')
+    if not only or 'proxy' in only:
+        nP = len(proxy_alphabet())
+        ctx.pmap(shard_proxy, [(a, b) for a in range(nP) for b in range(nP)], name='proxy')
     if not only or 'reconnect' in only:
         nR = len(reconnect_alphabet())
         firsts = [h for d in range(reconnect_lengths(tier)[0] + 1) for h in itertools.product(range(nR), repeat=d)]
@@ -1228,7 +1569,13 @@ def replay(case):
     part = core.Part()
     tier = case.get('tier', 'thorough')
     with virtual_clock() as clock:
-        if case['sub'] == 'reconnect':
+        if case['sub'] == 'interact':
+            A = interact_alphabet()
+            execute_interact(case['scenario'], [A[k] for k in case['history']], clock, part, case)
+        elif case['sub'] == 'proxy':
+            A = proxy_alphabet()
+            execute_proxy([A[k] for k in case['history']], clock, part, case)
+        elif case['sub'] == 'reconnect':
             A = reconnect_alphabet()
             msgs = [A[k] for k in case['before']] + [RECONNECT(case['variant'])] + [A[k] for k in case['after']]
             execute(focus(), FOCUS, msgs, reconnect_bundle(len(msgs)), clock, part, case)
